@@ -223,6 +223,7 @@ func main() {
 		die2("unknown property %q", prop)
 	}
 	t0 := time.Now()
+	sweepScratch()
 	bin := build(false)
 	var raceBin string
 	if pc.Race {
@@ -452,6 +453,26 @@ func main() {
 		os.Exit(2)
 	}
 	os.Exit(0)
+}
+
+// sweepScratch removes scratch directories (tmpfs, i.e. memory) that workers
+// of an earlier check left behind because they were killed.
+func sweepScratch() {
+	base := envOr("VERIF_SCRATCH", "/dev/shm")
+	ents, _ := os.ReadDir(base)
+	for _, e := range ents {
+		name := e.Name()
+		if !strings.HasPrefix(name, "verif-") {
+			continue
+		}
+		pid, err := strconv.Atoi(strings.TrimSuffix(strings.TrimPrefix(name, "verif-"), "-aux"))
+		if err != nil || pid <= 1 {
+			continue
+		}
+		if syscall.Kill(pid, 0) == syscall.ESRCH {
+			os.RemoveAll(filepath.Join(base, name))
+		}
+	}
 }
 
 // reorder lets flags follow the positional argument.
